@@ -9,18 +9,19 @@ from props import c04
 from vlib import Result, poly_from_points, poly_eval
 
 ID = "C06"
-LEAN_MODULES = ["NdInterp.Props.C06Fl", "NdInterp.Props.C06", "NdInterp.Props.C02", "NdInterp.Props.RatTie", "NdInterp.Props.FormulaTie.Lin", "NdInterp.Props.FormulaTie.Bil", "NdInterp.Props.FormulaTie.SplEval", "NdInterp.Props.FormulaTie.TabExt", "NdInterp.Props.FormulaTie.Ctl"]
-THEOREM_FILES = [("NdInterp/Props/C06Fl.lean", "C06_"), ("NdInterp/Props/C06.lean", "C06_"), ("NdInterp/Props/C02.lean", "C06_"), ("NdInterp/Props/FormulaTie/Lin.lean", "FT_lin_"), ("NdInterp/Props/FormulaTie/Bil.lean", "FT_bil_"), ("NdInterp/Props/FormulaTie/SplEval.lean", "FT_spl_coeffs"), ("NdInterp/Props/FormulaTie/SplEval.lean", "FT_spl_eval"), ("NdInterp/Props/FormulaTie/TabExt.lean", "FT_tab_"), ("NdInterp/Props/FormulaTie/Ctl.lean", "FT_ctl_")]
+LEAN_MODULES = ["NdInterp.Props.C06SplFl", "NdInterp.Props.C06Fl", "NdInterp.Props.C06", "NdInterp.Props.C02", "NdInterp.Props.RatTie", "NdInterp.Props.FormulaTie.Lin", "NdInterp.Props.FormulaTie.Bil", "NdInterp.Props.FormulaTie.SplEval", "NdInterp.Props.FormulaTie.TabExt", "NdInterp.Props.FormulaTie.Ctl"]
+THEOREM_FILES = [("NdInterp/Props/C06SplFl.lean", "C06_"), ("NdInterp/Props/C06Fl.lean", "C06_"), ("NdInterp/Props/C06.lean", "C06_"), ("NdInterp/Props/C02.lean", "C06_"), ("NdInterp/Props/FormulaTie/Lin.lean", "FT_lin_"), ("NdInterp/Props/FormulaTie/Bil.lean", "FT_bil_"), ("NdInterp/Props/FormulaTie/SplEval.lean", "FT_spl_coeffs"), ("NdInterp/Props/FormulaTie/SplEval.lean", "FT_spl_eval"), ("NdInterp/Props/FormulaTie/TabExt.lean", "FT_tab_"), ("NdInterp/Props/FormulaTie/Ctl.lean", "FT_ctl_")]
 RULE = ("extrapolate=true for Linear, Bilinear and non-periodic CubicSpline at Q (exact): queries inside and up to 50 spans "
         "outside on either side (2-D: outside in x, in y, in both). Linear/Bilinear judged against the exact end line / border-cell "
         "form; spline: the end cubic is recovered from 4 exact in-range samples of the end interval and evaluated at the outside "
         "query. extra: results with the flag on and off compared for in-range queries (exact at Q, bit-for-bit at f64, incl. the "
         "floats adjacent to the range ends). non-trivial = case with a query outside the range")
-PARTIAL = ["'up to rounding' outside the range: for Linear it is C06_linear_rounding ((7u+6u^2)*(|slope*(x-x1)|+|y1|)) and for Bilinear "
-           "C06_bilinear_rounding (three nested calc_frac at any query, also beyond a corner), both under the standard model of fp arithmetic "
-           "(overflow/underflow excluded); the f64 runs compare Linear and Bilinear bit for bit with the model and hold Linear to that scale; "
-           "for the spline no rounding bound is proved outside the range (float results are compared with the exact continuation within a "
-           "scaled tolerance); the exact statement is proved over ordered fields and checked exactly at Q"]
+PARTIAL = ["'up to rounding' outside the range: for Linear it is C06_linear_rounding ((7u+6u^2)*(|slope*(x-x1)|+|y1|)), for Bilinear "
+           "C06_bilinear_rounding (three nested calc_frac at any query, also beyond a corner) and for the spline C06_spline_eval_rounding "
+           "(132*u*M*K^3 for the evaluation of the end cubic from given coefficients, K >= 1 bounding |t| and |1-t|), all under the standard "
+           "model of fp arithmetic (overflow/underflow excluded); the rounding of the solve that produces the spline coefficients is not "
+           "bounded by a theorem, so float spline results are compared with the exact continuation within a scaled tolerance; the f64 runs "
+           "compare Linear and Bilinear bit for bit with the model; the exact statement is proved over ordered fields and checked exactly at Q"]
 ASSUMPTIONS = ["non-NaN f64 comparison is a linear order"]
 
 SPL_BCS = ["nak", "nat", "cla"]
